@@ -222,7 +222,7 @@ var c18Tokens = []struct{ line, tok, class string }{
 }
 
 func runC18Ping(c *Ctx) {
-	rounds := c.Pick(40, 400)
+	rounds := c.Pick(300, 1500)
 	if c.Arg("heavy", "") == "1" {
 		rounds = 3000
 	}
